@@ -1,6 +1,8 @@
 //! Configuration catalogue: which drivers run for which property, with which bounds.
 use crate::drivers::c01::{self, Mode};
 use crate::drivers::c02::{self, Kind};
+use crate::drivers::c14;
+use crate::drivers::c16;
 use crate::drivers::common::{Cfg, PolySpec};
 use crate::engine::explore::{Limits, Verdict};
 use crate::schemes::*;
@@ -192,6 +194,60 @@ pub fn catalogue(prop: &str, t: Tier, seed: u64) -> Vec<Entry> {
             c02_family::<LigeroUni>(t, seed, &mut out);
             c02_family::<LigeroMl>(t, seed, &mut out);
             c02_family::<Brakedown>(t, seed, &mut out);
+        }
+        "C16" => {
+            let f = vec!["LinearCombination::{add_assign,sub_assign,mul_assign}", "evaluate_query_set", "SuccinctCheckPolynomial::{evaluate,compute_coeffs}"];
+            let maxlen = if t == Tier::Quick { 2 } else { 3 };
+            for len in 1..=maxlen {
+                let mut en = e(format!("lc-ops/len{}", len), t, "all operand coefficients, constants and polynomial evaluations", format!("all 7^{} operator sequences", len), move || c16::lc_ops(len, false));
+                en.funcs = f.clone();
+                out.push(en);
+            }
+            let mut en = e("lc-ops/twin".into(), t, "as lc-ops", "planted off-by-one in the last sequence".into(), || c16::lc_ops(1, true));
+            en.twin = true;
+            en.funcs = f.clone();
+            out.push(en);
+            let mut en = e("eval-qs/2p2z-shared".into(), t, "coefficients of both polynomials, both points", "2 polynomials of 3 coefficients, 4 queries over 3 point labels and 2 points".into(), c16::eval_qs);
+            en.funcs = f.clone();
+            out.push(en);
+            let kmax = if t == Tier::Quick { 6 } else { 9 };
+            for k in 0..=kmax {
+                let mut en = e(format!("succinct/k{}", k), t, "all challenges and the point", format!("k = {} challenges, 2^{} coefficients", k, k), move || c16::succinct(k));
+                en.funcs = f.clone();
+                out.push(en);
+            }
+        }
+        "C14" => {
+            let f = vec!["streaming_kzg::CommitterKey::{new,commit,batch_commit,open,open_multi_points,batch_open_multi_points}", "CommitterKeyStream::{commit,open,open_multi_points,commit_folding}", "VerifierKey::{verify,verify_multi_points}", "FoldedPolynomialTree/Stream iterators"];
+            let quick = t == Tier::Quick;
+            let lens: Vec<usize> = if quick { vec![1, 2, 5] } else { (1..=9).collect() };
+            let bufs: Vec<usize> = if quick { vec![1, 3, 1 << 20] } else { vec![1, 2, 3, 5, 1 << 20] };
+            for n in &lens {
+                for b in &bufs {
+                    let (n, b) = (*n, *b);
+                    let mut en = e(format!("single/n{}-buf{}", n, b), t, "coefficients, point, delta", format!("{} coefficients, msm buffer {}", n, b), move || c14::single(n, b, seed));
+                    en.funcs = f.clone();
+                    out.push(en);
+                }
+            }
+            let multis: Vec<(usize, usize, usize)> = if quick { vec![(3, 1, 1), (4, 2, 2), (5, 3, 1)] } else { vec![(3, 1, 1), (4, 2, 2), (5, 3, 1), (6, 3, 2), (8, 2, 3), (7, 4, 1)] };
+            for (n, m, k) in multis {
+                for b in [1usize, 1 << 20] {
+                    let mut en = e(format!("multi/n{}-pts{}-polys{}-buf{}", n, m, k, b), t, "coefficients of all polynomials, distinct points, eta (!= 0), delta", format!("{} coefficients, {} points, {} polynomials, buffer {}", n, m, k, b), move || c14::multi(n, m, k, b, seed));
+                    en.funcs = f.clone();
+                    if quick { en.lim.wall_s = 45.0; }
+                    out.push(en);
+                }
+            }
+            let maxn = if quick { 9 } else { 17 };
+            let maxk = if quick { 3 } else { 4 };
+            for n in 1..=maxn {
+                for k in 0..=maxk {
+                    let mut en = e(format!("fold/n{}-k{}", n, k), t, "coefficients and folding challenges", format!("{} coefficients, {} challenges", n, k), move || c14::fold(n, k, 4, seed));
+                    en.funcs = f.clone();
+                    out.push(en);
+                }
+            }
         }
         _ => {}
     }
